@@ -100,6 +100,23 @@ Definition approximate_rational (xp xq dp dq : Z) : outcome (Z * Z) :=
        | OFuel => OFuel
        end.
 
+(* the same function with the unary fuel of the translated code (coq/C14/Gen_rational.v is proved equal to this one;
+   GenEqRat.v proves that with fuel = lcm(xq, dq) it coincides with approximate_rational above) *)
+Definition approximate_rational_n (fuel : nat) (xp xq dp dq : Z) : outcome (Z * Z) :=
+  if dp <=? 0 then OFail else
+  if xq =? 1 then ORet (xp, xq) else
+  let n := xp / xq in
+  let alpha0 := xp mod xq in
+  let den := Z.lcm xq dq in
+  let alpha_num := alpha0 * den / xq in
+  let d_num := dp * den / dq in
+  if alpha_num <? d_num then ORet (0 + n * 1, 1)
+  else match approx_int fuel alpha_num d_num den with
+       | ORet (p, q) => ORet (p + n * q, q)
+       | OFail => OFail
+       | OFuel => OFuel
+       end.
+
 (* ------------------------------------------------------------------------------------------------------------ *)
 (* brute-force specification: the fraction with the smallest denominator strictly inside (x - e, x + e) *)
 Open Scope Q_scope.
